@@ -34,8 +34,6 @@ def cases_for(rng, tier):
     for name in sorted(CTOR):
         spec = CTOR[name]
         cfgs = configurations(name)
-        if tier == 'quick':
-            cfgs = [cfgs[0]] + rng.sample(cfgs[1:], min(len(cfgs) - 1, 3))
         # image kinds: the one the class needs, else the documented dtypes (a branch that draws may exist for one
         # dtype only) -- one at random in the quick tier, all of them otherwise
         if 'image' in spec:
